@@ -45,7 +45,7 @@ fn judge(rep: &mut Report, label: &str, text: &str, expected: &BTreeSet<&'static
 struct M { tag: Option<u32>, opt: bool, dup_name: bool }
 
 pub fn run() -> i32 {
-    let mut rep = Report::new("rules", "F1: every tag / optional / repeated-name assignment over <= 3 members in 6 containers; F2: every stream placement over <= 3 members; F3: enumerator values at the bounds of every underlying type, enum modifiers, tag bounds; F4: dictionary key types to depth 2; F5: every redeclaration of inherited operations over <= 3 operations, one and two levels -- verdict and codes vs an independent reference checker");
+    let mut rep = Report::new("rules", "F1: every tag / optional / repeated-name assignment over <= 3 members in 6 containers; F2: every stream placement over <= 3 members; F3: enumerator values at the bounds of every underlying type, value uniqueness over every sequence of <= 4 implicit / explicit enumerators, enum modifiers, tag bounds; F4: dictionary key types to depth 2; F5: every redeclaration of inherited operations over <= 3 operations, one and two levels -- verdict and codes vs an independent reference checker");
     let deep = std::env::var("VERIF_BOUNDED_DEEP").is_ok();
     // ---- F1 ---------------------------------------------------------------------------------------------------
     let shapes: Vec<M> = { let mut v = vec![]; for tag in [None, Some(1), Some(2)] { for opt in [false, true] { for dup_name in [false, true] { v.push(M { tag, opt, dup_name }); } } } v };
@@ -112,6 +112,25 @@ pub fn run() -> i32 {
         let exp: BTreeSet<&'static str> = if !(0..=2147483647).contains(&v) { ["E020"].into() } else { BTreeSet::new() };
         judge(&mut rep, &format!("F3 enum without underlying type, value {v}"), &format!("module M\nenum E {{ A = {v} }}\n"), &exp);
     }
+    // value uniqueness under implicit numbering: every sequence of <= 4 enumerators, each implicit or explicit with a value in 0..=3
+    // (an implicit value is the previous one + 1, starting at 0): E022 iff two enumerators end up with the same value
+    for n in 1..=4usize {
+        for code in 0..5usize.pow(n as u32) {
+            let choice: Vec<usize> = (0..n).map(|i| (code / 5usize.pow(i as u32)) % 5).collect();   // 4 = implicit
+            let mut values: Vec<i128> = vec![];
+            let mut decl: Vec<String> = vec![];
+            for (i, c) in choice.iter().enumerate() {
+                let v = if *c == 4 { values.last().map(|p| p + 1).unwrap_or(0) } else { *c as i128 };
+                values.push(v);
+                decl.push(if *c == 4 { format!("E{i}") } else { format!("E{i} = {c}") });
+            }
+            let dup = (0..n).any(|i| (0..i).any(|j| values[i] == values[j]));
+            let exp: BTreeSet<&'static str> = if dup { ["E022"].into() } else { BTreeSet::new() };
+            for (head, sep) in [("enum E : uint8", ", "), ("unchecked enum E : int32", " "), ("enum E", ", ")] {
+                judge(&mut rep, &format!("F3 uniqueness {head} {decl:?}"), &format!("module M\n{head} {{ {} }}\n", decl.join(sep)), &exp);
+            }
+        }
+    }
     for (ty, code) in [("bool", "E009"), ("string", "E009"), ("float32", "E009"), ("float64", "E009")] {
         judge(&mut rep, &format!("F3 enum : {ty}"), &format!("module M\nenum E : {ty} {{ A }}\n"), &[code].into());
     }
@@ -161,7 +180,8 @@ pub fn run() -> i32 {
     //      references, files, parameters / return members; compress / slicedFormat(>=1 of Args, Return) and oneway(no argument) on operations
     //      only, oneway only without return values; unknown unprefixed directives nowhere; foreign `x::y(...)` attributes anywhere, repeatable.
     {
-        let targets: [(&str, &str, &str); 14] = [
+        let targets: [(&str, &str, &str); 17] = [
+            ("operation with a streamed return", "module M\ninterface I { [@] op(a: int32) -> stream uint8 }\n", "opret"), ("operation with a return tuple", "module M\ninterface I { [@] op() -> (a: bool, b: stream uint8) }\n", "opret"), ("operation with streamed parameter only", "module M\ninterface I { [@] op(a: stream uint8) }\n", "op"),
             ("file", "[[@]]\nmodule M\nstruct S { a: bool }\n", "file"), ("module", "[@]\nmodule M\nstruct S { a: bool }\n", "module"),
             ("struct", "module M\n[@] struct S { a: bool }\n", "def"), ("field", "module M\nstruct S { [@] a: bool }\n", "def"),
             ("type reference", "module M\nstruct S { a: [@] bool }\n", "typeref"), ("interface", "module M\n[@] interface I { op() }\n", "def"),
